@@ -247,7 +247,8 @@ def mps(B, case):
         got["inner"] = a.inner(b)
         got["inner_fn"] = inner(a, b)
         got["inner_rev"] = b.inner(a)
-        got["overlap"] = a.overlap(b)
+        if case.get("overlap"):
+            got["overlap"] = a.overlap(b)
         got["nq"] = [a.n_qudits, a.get_max_bond_dim(), a.dim]
         which = case.get("which", 0)
         sf = scale_factors(la, z, which=which)
@@ -258,11 +259,9 @@ def mps(B, case):
         got["rmul_meta"] = [int(r is not a), int(r.factors is not a.factors), int(r.orthogonality_center == oc),
                             int(r.precision == 0.125), int(r.max_bond_dim == 77), int(tuple(r.eigenstates) == tuple(basis)),
                             int(type(r) is MPS)]
-        rt = t_w * a                                # a 0-d tensor as the scalar
-        got["rmul_t"] = snap(B, rt.factors)
         c = a
-        c *= z                                      # __imul__ is documented nowhere as in-place: it returns a new MPS
-        got["imul"] = snap(B, c.factors)
+        c *= t_w                                    # a 0-d tensor as the scalar (`accum_mps *= 1 / norm`); __imul__ is
+        got["imul"] = snap(B, c.factors)            # not documented as in-place: it returns a new MPS
         got["imul_meta"] = [int(c is not a), int(c.orthogonality_center == oc)]
         got["after_alg"] = snap(B, a.factors) + snap(B, b.factors)
         r.factors[oc if oc is not None else 0].zero_()     # `scalar * f` is a fresh tensor
@@ -275,24 +274,24 @@ def mps(B, case):
             got["after_apply"] = snap(B, a.factors) + [np.array(B.arr(t_op)).copy()]
     pa, pb = dense_mps(B, A), dense_mps(B, Bm)
     ip = vdot(B, pa, pb)
-    zpa = z * pa
+    zpa, wpa = z * pa, w * pa
     checks = [("MPS.inner", got_scalar(B, got["inner"]), scalar(B, ip)),
               ("mps.inner()", got_scalar(B, got["inner_fn"]), scalar(B, ip)),
               ("MPS.inner (arguments swapped)", got_scalar(B, got["inner_rev"]), scalar(B, B.conj(ip))),
-              ("MPS.overlap", got_scalar(B, got["overlap"]), scalar(B, ip * B.conj(ip))),
               ("n_qudits, get_max_bond_dim, dim", ints(B, got["nq"]), ints(B, [N, max(list(case["ba"]) + [1]), d])),
               ("scale_factors", dense_mps(B, got["sf"]), zpa),
               ("scale_factors: new list, one new tensor", ints(B, [got["sf_new_list"]]), ints(B, [1])),
               ("MPS.__rmul__", dense_mps(B, got["rmul"]), zpa),
               ("MPS.__rmul__: new object, new list, centre / precision / max_bond_dim / eigenstates kept",
                ints(B, got["rmul_meta"]), ints(B, [1] * 7)),
-              ("MPS.__rmul__ (0-d tensor scalar)", dense_mps(B, got["rmul_t"]), w * pa),
-              ("MPS.__imul__", dense_mps(B, got["imul"]), zpa),
+              ("MPS.__imul__ (0-d tensor scalar)", dense_mps(B, got["imul"]), wpa),
               ("MPS.__imul__: new object, centre kept", ints(B, got["imul_meta"]), ints(B, [1, 1])),
               ("operands unchanged after inner / overlap / scaling", flat(B, got["after_alg"]), flat(B, A + Bm)),
               ("operand unchanged after zero_() on the scaled factor of the result", flat(B, got["after_zero"]), flat(B, A))]
+    if case.get("overlap"):
+        checks.append(("MPS.overlap", got_scalar(B, got["overlap"]), scalar(B, ip * B.conj(ip))))
     if oc is not None:
-        checks += [("MPS.apply at the orthogonality centre", dense_mps(B, got["apply"]), matvec(B, _site_op(B, N, d, oc, op), zpa)),
+        checks += [("MPS.apply at the orthogonality centre", dense_mps(B, got["apply"]), matvec(B, _site_op(B, N, d, oc, op), wpa)),
                    ("MPS.apply: centre", ints(B, got["apply_meta"]), ints(B, [1])),
                    ("operand and operator unchanged after apply on the scaled copy", flat(B, got["after_apply"]), flat(B, A + [op]))]
     return checks
